@@ -274,10 +274,27 @@ def handleKernel (j : Json) : Except String Verdict := do
   let p ← fStr j "pfx"
   if !c15_inFamily loops out ops || !wfB out.length z then
     return { agree := true, spec := true, tags := ["OUT_OF_MODEL"] }
-  let (_, s0, herr) := c15_runList hist MState.init [] 0
+  let body : Body := match fStrD j "body" "iadd" with
+    | "add_assign" | "radd_assign" => .addAssign
+    | "imul" => .imulTmp
+    | _ => .iaddMul            -- "iadd" and "rmul" (first factor unboxed: `__rmul__` instead of `__mul__`)
+  let repeatN := fIntD j "repeat" 1
+  let pre := fIntD j "pre" 0
+  let cfg : KCfg := { declared, body }
+  -- an earlier collecting session of the same kernel on the same operand objects (declared, empty output)
+  let z0 : ATree := ⟨out.length, defaultTree 0 out.length⟩
+  let preOps : List MOp := if pre == 1 then
+      [MOp.beginCollect (some p)] ++ traces.map (fun (rk, t) => MOp.trace rk t false) ++
+        callsOf (runK { cfg with declared := true } loops out z0 ops).2 ++ [MOp.endCollect]
+    else []
+  let (_, s0, herr) := c15_runList (hist ++ preOps) MState.init [] 0
   if herr ≥ 0 then return { agree := true, spec := true, tags := ["OUT_OF_MODEL"] }
-  let k : Kernel := { loops, out, declared }
-  let r := runK declared loops out ⟨out.length, z⟩ ops
+  let r1 := runK cfg loops out ⟨out.length, z⟩ ops
+  -- the kernel applied twice to the same operands and the same output
+  let r := if repeatN == 2 then
+      let r2 := runK cfg loops out r1.1 ops
+      (r2.1, r1.2 ++ r2.2)
+    else r1
   let okAsserts := assertsOk (wtrOf traces) r.2
   let sessOps := [MOp.beginCollect (some p)] ++ traces.map (fun (rk, t) => MOp.trace rk t false) ++ callsOf r.2 ++ [MOp.endCollect]
   let (_, sN, serr) := c15_runList sessOps s0 [] 0
@@ -286,7 +303,7 @@ def handleKernel (j : Json) : Except String Verdict := do
   let on ← field impl "on"
   let onErr := (on.getObjVal? "err").toOption.isSome
   let offErr := (off.getObjVal? "err").toOption.isSome
-  let mout := c15_atreeJson (runPlain k ⟨out.length, z⟩ ops)
+  let mout := c15_atreeJson r.1
   let mut why := ""
   let mut agree := true
   if mout.compress != off.compress then agree := false; why := why ++ "result (collection off) differs from model; "
@@ -356,8 +373,67 @@ def handleKernel (j : Json) : Except String Verdict := do
     (if iterRanks.any (fun v => registers v (callsOf r.2)) then ["traced-iterated"] else []) ++
     (if ops.any (fun o => o.uShape.isSome) then ["format-U"] else []) ++
     (if ops.any (fun o => (presentA o.t).isEmpty) then ["empty-operand"] else []) ++
-    [s!"loops{loops.length}", s!"ops{ops.length}"]
+    (if repeatN == 2 then ["applied-twice"] else []) ++ (if pre == 1 then ["operands-reused-across-sessions"] else []) ++
+    (if fIntD j "inside" 0 == 1 then ["built-inside-bracket"] else []) ++
+    [s!"body-{fStrD j "body" "iadd"}", s!"loops{loops.length}", s!"ops{ops.length}"]
   pure { agree, spec, model := mout, tags, why }
+
+/-- programs of the whole C06 family (tilings, nesting / hoisting, `Fiber.intersection` styles, formats, value
+    kinds): no Lean model of these loop nests — the executable specification of C15 is evaluated on the
+    implementation's observations alone (result off vs on, dump() vs the independent operator count, loop
+    bodies vs numIters, the same session in a fresh process) -/
+def handleProgram (j : Json) : Except String Verdict := do
+  let traces ← (← fArr j "traces").mapM (fun e => do
+    match (← asList e) with
+    | [r, t] => do pure ((← r.getStr?), (← t.getStr?))
+    | _ => throw "trace decl")
+  let soloU ← (← fArr j "solo_u").mapM (·.getStr?)
+  let ranks ← (← fArr j "ranks").mapM (·.getStr?)
+  let impl ← field j "impl"
+  let off ← field impl "off"
+  let on ← field impl "on"
+  let onErr := (on.getObjVal? "err").toOption.isSome
+  let offErr := (off.getObjVal? "err").toOption.isSome
+  let errLine := fStrD impl "err_line" ""
+  let dump ← field impl "dump"
+  let wrap ← field impl "wrap"
+  let bodies ← field impl "bodies"
+  let iters ← field impl "iters"
+  let iterRanks := (traces.filter (fun e => e.2 == "iter")).map (·.1)
+  let mut spec := true
+  let mut why := ""
+  if offErr then spec := false; why := why ++ "kernel fails with collection off; "
+  if onErr && !offErr then
+    spec := false
+    why := why ++ (if (errLine.splitOn "insert_pos is not None").length > 1 then
+        "transparent: the kernel aborts with collection on (lshift_iterator asserts insert_pos is not None: insertion with the write trace on, output shape not declared) but runs with collection off; "
+      else s!"transparent: the kernel aborts with collection on ({errLine}) but runs with collection off; ")
+  else if !onErr && on.compress != off.compress then
+    spec := false; why := why ++ "transparent: results with collection on and off differ; "
+  if !onErr && !offErr then
+    for (key, metric) in [("mul", "payload_mul"), ("add", "payload_add"), ("update", "payload_update")] do
+      if c15_getN dump key != c15_getN wrap key then
+        spec := false; why := why ++ s!"exact: reported {metric} {c15_getN dump key}, executed {c15_getN wrap key}; "
+    for v in iterRanks do
+      let b := if c15_getN bodies v < 0 then 0 else c15_getN bodies v
+      if c15_getN iters v != b then
+        spec := false
+        why := why ++ (if soloU.contains v then s!"numIters: format-U rank {v} ran {b} loop bodies, trace shows {c15_getN iters v}; "
+          else if !ranks.contains v || c15_getN bodies v < 0 then s!"numIters: stale rows, rank {v} never iterated in this session but its file shows {c15_getN iters v} iterations; "
+          else s!"numIters: rank {v} ran {b} loop bodies, trace shows {c15_getN iters v}; ")
+    let fresh ← field impl "fresh"
+    if (← field fresh "dump").compress != dump.compress then
+      spec := false; why := why ++ "isolation: counters differ from the same kernel in a fresh process; "
+    if (← field fresh "files").compress != (← field impl "files").compress then
+      spec := false; why := why ++ "isolation: traces differ from the same kernel in a fresh process; "
+  let tags := ["spec-only", s!"style-{fStrD j "style" "?"}", s!"vals-{fStrD j "vals" "int"}"] ++
+    (if fIntD j "tiled" 0 == 1 then ["tiled"] else []) ++ (if fIntD j "nU" 0 > 0 then ["format-U-any"] else []) ++
+    (if !soloU.isEmpty then ["dense-walk"] else []) ++
+    (if fIntD j "repeat" 1 == 2 then ["applied-twice"] else []) ++ (if fIntD j "pre" 0 == 1 then ["operands-reused-across-sessions"] else []) ++
+    (if fIntD j "inside" 0 == 1 then ["built-inside-bracket"] else []) ++ (if fIntD j "bare" 0 == 1 then ["unowned-fiber-operand"] else []) ++
+    (if c15_getN wrap "update" > 0 then ["effectual"] else []) ++ (if onErr then ["aborts"] else []) ++
+    (if traces.isEmpty then ["traces-none"] else [])
+  pure { agree := true, spec, tags, why }
 
 end C15
 
@@ -365,6 +441,7 @@ def handleC15 (j : Json) : Except String Verdict := do
   match (← fStr j "kind") with
   | "api" => C15.handleApi j
   | "kernel" => C15.handleKernel j
+  | "program" => C15.handleProgram j
   | k => throw s!"C15: unknown kind {k}"
 
 end FtDriver
